@@ -542,13 +542,23 @@ def _shard(args):
     return dict(stats), vs, dict(nviol), len(values), len(reads)
 
 
+QUICK_PAIR_LEN2_SOURCES = ["str@1", "file@0x1000", "vm@0x1000,two-pages", "pe", "elf,be"]      # one per class
+
+
 def tiers(quick):
+    """(contents for single reads, {source name: contents for the ordered pairs})"""
     if quick:
-        # pairs: every source, the empty content and the prefixes of length 1 and 2 of the first bit pattern
-        pair_contents = [b"", MASTERS[0][:1], MASTERS[0][:2]]
+        # pairs: every source on the empty content and the 1-byte prefix of the first bit pattern; one source per class
+        # also on its 2-byte prefix
+        pairs = dict((s[0], [b"", MASTERS[0][:1]]) for s in SOURCES)
+        for name in QUICK_PAIR_LEN2_SOURCES:
+            pairs[name] = pairs[name] + [MASTERS[0][:2]]
     else:
-        pair_contents = list(CONTENTS)
-    return list(CONTENTS) + [LONG], pair_contents
+        # pairs: all four bit patterns up to length 2, the first two for lengths 3 and 4 (cache aliasing is decided by
+        # addresses and lengths, the pattern only has to make a stale answer visible)
+        pc = [c for c in CONTENTS if len(c) <= 2 or any(c == m[:len(c)] for m in MASTERS[:2])]
+        pairs = dict((s[0], list(pc)) for s in SOURCES)
+    return list(CONTENTS) + [LONG], pairs
 
 
 def run(ctx):
@@ -561,7 +571,7 @@ def run(ctx):
             shards.append(("single", name, c, 0, 0))
     chunk = 96
     for name, cls, kind, p in SOURCES:
-        for c in pair_contents:
+        for c in pair_contents[name]:
             nreads = len(build_reads(source_base(name), len(c)))
             for lo in range(0, nreads, chunk):
                 shards.append(("pair", name, c, lo, lo + chunk))
@@ -609,7 +619,7 @@ def run(ctx):
         "bounds": {
             "sources": [s[0] for s in SOURCES],
             "contents_single_reads": [c.hex() for c in single_contents],
-            "contents_atomic_pairs": [c.hex() for c in pair_contents],
+            "contents_atomic_pairs": dict((k, [c.hex() for c in v]) for k, v in pair_contents.items()),
             "getbits": "bit offset in [-8, 8*len+8] x n in [0, 8*len+8] relative to the first content bit",
             "getbytes": "start in [-2, len+2] x l in [0, len+2]",
             "get_uN": "N in 8,16,32,64 x addr in [-1, len+1] x endianness in (default, LITTLE_ENDIAN, BIG_ENDIAN)",
